@@ -186,15 +186,22 @@ def shard(s):
     grid = ph_grid(s["tier"])
     for case in s["cases"]:
         case = dict(case, tier=s["tier"])
+        stack_ = core.istate(case["seq"] + case["kind"])
+        stack_.__enter__()
+        try:
+            if case["kind"] == "pI":
+                v, c, pI = check_pI(case)
+            else:
+                v, c = check_titration(case, grid)
+        finally:
+            stack_.__exit__(None, None, None)
         if case["kind"] == "pI":
-            v, c, pI = check_pI(case)
             acc.out(("pI", None if pI is None else round(pI, 6)))
             acc.extra.setdefault("pI_charge_evals", set()).add(c)
             if pI is not None and (pI > 14 or pI < 0):
                 acc.bump("pI_outside_0_14_bracket_widened")
                 acc.sample({"seq": short(case["seq"]), "pI": pI, "charge_evaluations": c}, cap=1)
         else:
-            v, c = check_titration(case, grid)
             acc.out(("comp", case["seq"][:12]))
         acc.states += 1
         acc.traces += 1
@@ -245,6 +252,7 @@ def run(tier, seed, t0):
     nsh = 16 * 6
     shards = [{"tier": tier, "cases": cases[i::nsh]} for i in range(nsh)]
     acc = core.pmap(shard, shards)
+    acc.merge(core.run_optimized(PROP, tier))      # the rejection battery once more under `python -O`
     acc.extra["pI_charge_evals_max"] = max(acc.extra.pop("pI_charge_evals", {0}))
     return core.finish(
         PROP, tier, seed, acc, t0,
@@ -258,6 +266,13 @@ def run(tier, seed, t0):
              "returned pH within 0.02; non-trivial = sequences with >=2 kinds of titratable residue" % (n, len(grid), LL),
         bounds={"composition_total": n, "pH_grid": len(grid), "extreme_sizes": list(sizes)},
         assumptions=["EMBOSS pKa values pinned in vmc/refmodel/tables.py"])
+
+
+def opt_shards(tier):
+    cases = []
+    for seq in ("KRHDECYPG", "GSGS", "HHDDEE", "KKKK"):
+        cases += [{"kind": "titration", "seq": seq, "pI_first": False}, {"kind": "pI", "seq": seq}]
+    return [(shard, {"tier": tier, "cases": cases})]
 
 
 def replay(case):
